@@ -134,11 +134,19 @@ def enrich(evs, steps, buf, sealed, refbuf=None):
     calls = [e for e in evs if e["op"] in ("ioption", "soption", "validate_lead", "read_lead", "read_header", "clear_error") or (e["op"] == "init_adv_read" and e.get("i", 9) > 3)]
     i = 0
     pinned = None
+    n0 = len(out)
     for s in steps:
         if i + 1 >= len(calls) + 1 and i >= len(calls):
             break
         e = calls[i]; ce = calls[i + 1] if i + 1 < len(calls) else {"err": 9}; i += 2
         es = ce.get("err", 9)      # error state after the caller's clear_error
+        if e.get("afired", 0):     # a refused allocation hit this call or an earlier one on the context (allocation sweeps)
+            for x in out[n0:]:
+                x.setdefault("fault", False)
+            n0 = len(out)
+            faulted = True
+        else:
+            faulted = False
         if s["op"] == "settype":
             out.append({"op": "settype", "t": "file" if s["type"] == ft else "other", "ret": e["ret"], "es": es})
             if e["ret"] == 1:
@@ -160,6 +168,8 @@ def enrich(evs, steps, buf, sealed, refbuf=None):
             out.append({"op": "read_lead", "leadOk": lead_ok, "ret": e["ret"], "es": es})
         elif s["op"] == "read_header":
             out.append({"op": "read_header", "sealed": bool(h.sealed and sealed and buf is not None and len(buf) >= (h.hdr_total or 0)), "wf": bool(h.ok and h.supported), "ret": e["ret"], "es": es})
+        if faulted and len(out) > n0:
+            out[-1]["fault"] = True
     return out
 
 
@@ -224,6 +234,29 @@ def run(tier):
     scripts = {}
     for (cid, path, buf, sealed, steps, refbuf) in cases:
         scripts[cid] = script_and_template(cid, path, steps)
+    # allocation failures: in pinning histories with a wrong digest / wrong length / the right values, every allocation made
+    # by zchunk's own code is refused in turn (once / from there on).  A call hit by the fault may fail, but a setter that
+    # returns 1 has put its pin in force and an accepted lead carries the pinned values (the X actions of Pin with fault)
+    from .. import allocfault
+    nsweep = 0
+    for fi, (path, buf, sealed, refbuf) in enumerate(files[:4]):
+        h = ref.parse_header(buf); good = h.header_digest.hex().encode()
+        wrong = good[:7] + (b"0" if good[7:8] != b"0" else b"1") + good[8:]
+        bases = [[{"op": "settype", "type": h.hash_type}, {"op": "setdigest", "str": wrong}, {"op": "validate_lead"}, {"op": "read_lead"}, {"op": "read_header"}],
+                 [{"op": "settype", "type": h.hash_type}, {"op": "setdigest", "str": good}, {"op": "setlen", "len": h.hdr_total + 1}, {"op": "validate_lead"}, {"op": "read_lead"}],
+                 [{"op": "setlen", "len": h.hdr_total}, {"op": "settype", "type": (h.hash_type + 1) % 4}, {"op": "read_lead"}, {"op": "read_header"}],
+                 [{"op": "settype", "type": h.hash_type}, {"op": "setdigest", "str": good.upper()}, {"op": "setlen", "len": h.hdr_total}, {"op": "validate_lead"}, {"op": "read_lead"}, {"op": "read_header"}]]
+        if tier == "quick":
+            bases = [bases[(fi + j) % 4] for j in (0, 1)] if fi else bases
+        for bi, steps in enumerate(bases):
+            base = script_and_template("af%d-%d-base" % (fi, bi), path, steps)
+            na, _ev = allocfault._count(base)
+            for k in range(1, na + 1):
+                for ln in (1, 100000):
+                    cid = "af%d-%d-a%d-%d" % (fi, bi, k, ln)
+                    scripts[cid] = allocfault._arm(script_and_template(cid, path, steps), k, ln)
+                    cases.append((cid, path, buf, sealed, steps, refbuf)); nsweep += 1
+    ck.extra["allocation_sweep_runs"] = nsweep
     ids = list(scripts)
     nproc = 8
     parts = ["".join(scripts[c] for c in ids[i::nproc]) for i in range(nproc)]
@@ -232,7 +265,9 @@ def run(tier):
     trace = []; owner = []
     for (cid, path, buf, sealed, steps, refbuf) in cases:
         ce = bycase.get(cid, [])
-        if any(e["op"] in ("Crash", "Hang") for e in ce):
+        if cid.startswith("af") and any(e["op"] == "Crash" for e in ce):
+            t = enrich([e for e in ce if e["op"] != "Crash"], steps, buf, sealed, refbuf)      # a process that ends on a refused allocation promises nothing more
+        elif any(e["op"] in ("Crash", "Hang") for e in ce):
             t = [{"op": "reset"}, {"op": "Crash", "case": cid}]
         else:
             t = enrich(ce, steps, buf, sealed, refbuf)
